@@ -24,9 +24,24 @@ def run_property(prop: str, repo: Path, tier: str, seed: int, write_evidence: bo
         ctx = Ctx(prop, repo, tier)
         ctx.quiet = quiet
         mod.run(ctx)
-        extra = None
-        if tier == "thorough" and hasattr(mod, "thorough"):
-            extra = mod.thorough(ctx)
+        extra = {}
+        if tier == "thorough":
+            if hasattr(mod, "thorough"):
+                extra.update(mod.thorough(ctx) or {})
+            # both-ways validation of this property's rules on scratch variants (DESIGN 3.9)
+            if str(repo.resolve()) == "/repo" or os.environ.get("PGSTAT_SELFVAL") == "1":
+                from . import selfval
+                res = selfval.run_all([prop])
+                summ = selfval.summarize(res)
+                extra["selfval"] = {k: v for k, v in summ.items() if k != "failures"}
+                extra["selfval"]["variants_run"] = [
+                    {"id": r["id"], "kind": r["kind"], "expected_rule": r.get("rule", ""), "status": r["status"]} for r in res]
+                for fl in summ["failures"]:
+                    ctx.undecided("SELFVAL", None, None, f"checker self-validation failed on variant {fl['id']}: "
+                                  f"{fl['status']} {fl['why']}", construct=fl["id"], key=fl["id"])
+                print(f"  selfval: {extra['selfval']['mutants_caught']}/{extra['selfval']['mutants']} mutants reported, "
+                      f"{extra['selfval']['benign_silent']}/{extra['selfval']['benign']} benign rewrites silent, "
+                      f"{extra['selfval']['skipped']} skipped")
         return finish(ctx, seed, evidence, extra)
     except AnalysisError as e:
         print(f"ANALYSIS-ERROR property={prop} rule={e.rule} {e.msg}")
